@@ -13,12 +13,13 @@ from .checks_b import BFinding, make_machine, decorate, explore, syntax_errors, 
 from .gointr import SYM_MARK
 
 
-def walk_fields(spec, fn):
+def walk_fields(spec, fn, nested=True):
+    """nested=False: packet-level fields only (attributes cannot be written on the fields of an inline object)"""
     s = copy.deepcopy(spec)
     for p in s.packets:
         p.fields = [fn(f) for f in p.fields]
         for f in p.fields:
-            if f.kind == 'inline':
+            if f.kind == 'inline' and nested:
                 f.fields = [fn(g) for g in f.fields]
     return s
 
@@ -32,7 +33,7 @@ def r_zchar(spec):
         if f.kind == 'fixed' and f.z and f.pad is None:
             return f.clone(z=False, pad=('right', "'\\x00'"))
         return f
-    return walk_fields(spec, fn)
+    return walk_fields(spec, fn, nested=False)
 
 
 def r_defaultpad(spec):
@@ -43,7 +44,7 @@ def r_defaultpad(spec):
             n[0] += 1
             return f.clone(pad=('right', "' '" if n[0] % 2 else None))
         return f
-    return walk_fields(spec, fn)
+    return walk_fields(spec, fn, nested=False)
 
 
 def r_placement(spec):
@@ -156,9 +157,27 @@ class Group(bfamily.T):
     pass
 
 
+def extra_specs(tier):
+    """thorough tier: programs of the pipeline A family as further bases (those without configured padding: the
+    default-padding rewrite spells the built-in default)"""
+    if tier != 'thorough':
+        return []
+    from .pspec import family as afamily
+    want = ('combined0', 'combined1', 'fixed_attr0', 'meta_None', 'meta_alias', 'cks_two_same_width', 'len_u16_inline_None_match', 'len_gap_u32_true',
+            'disp_u16_true', 'disp_str', 'inline_nested', 'objs_named_both', 'strlist_true_u8_u32', 'idents', 'len_cks_inner')
+    out = []
+    for p in afamily('quick'):
+        if p.name in want and not any(k.startswith('FixedStringPad') for k in p.options):
+            import copy
+            q = copy.deepcopy(p)
+            q.name = 'c08x_' + p.name
+            out.append(q)
+    return out
+
+
 def family(tier='quick'):
     groups = []
-    for spec in base_specs():
+    for spec in base_specs() + extra_specs(tier):
         base = spec.render()
         variants = []
         for name, fn in SPEC_REWRITES:
